@@ -1054,6 +1054,38 @@ def _normalise(n, F, depth, tail=False, under_try=False):
                                "init": {"k": "Lit", "ty": "bool", "sp": out["sp"], "v": "bool:false" if is_any else "bool:true"}, "else": None},
                               {"k": "Expr", "e": loop}],
                     "expr": flag, "adaptor": "any" if is_any else "all"}
+    # (2b') `iter.find_map(|x| body)`: the first Some(..) the body yields, as a loop
+    if k == "Call" and (out.get("fn") or "").endswith("Iterator::find_map") and len(out["args"]) == 2 and peel(out["args"][1]).get("k") == "Closure":
+        clo = F.fns.get(peel(out["args"][1])["def"])
+        ps = [p for p in clo.thir["params"] if p.get("pat") is not None] if clo is not None and clo.thir is not None else []
+        cbody = _unreturn(clo.raw_body) if ps else None
+        if cbody is not None:
+            def _retn(n_):
+                if isinstance(n_, list):
+                    return [_retn(x) for x in n_]
+                if not isinstance(n_, dict):
+                    return n_
+                if n_.get("k") == "Closure":
+                    return n_
+                if n_.get("k") == "Return" and n_.get("value") is not None and adt_is(peel(n_["value"]), "Option", "None"):
+                    return {"k": "Continue", "ty": "!", "sp": n_.get("sp")}  # nothing for this item
+                return {kk: (vv if kk == "pat" else _retn(vv)) for kk, vv in n_.items()}
+            cbody = _retn(cbody)
+        if len(ps) == 1 and not any(x.get("k") in ("Return", "Try") for x in walk(cbody)):
+            _inline_counter[0] += 1
+            rid = 1000000 * _inline_counter[0] + 999996
+            rv = {"k": "Var", "ty": out.get("ty"), "sp": out["sp"], "name": "found", "id": rid}
+            none = {"k": "Adt", "ty": out.get("ty"), "sp": out["sp"], "adt": "std::option::Option", "variant": "None", "fields": []}
+            setr = {"k": "Assign", "ty": "()", "sp": out["sp"], "lhs": rv, "rhs": _normalise(cbody, F, depth + 1)}
+            test = {"k": "Call", "ty": "bool", "sp": out["sp"], "fn": "std::option::Option::<T>::is_some", "local": False, "gen": [], "hir_call": True, "args": [rv]}
+            brk = {"k": "Block", "ty": "()", "sp": out["sp"], "unsafe": False, "stmts": [{"k": "Expr", "e": {"k": "Break", "ty": "!", "sp": out["sp"], "value": None}}], "expr": None}
+            iff = {"k": "If", "ty": "()", "sp": out["sp"], "cond": test, "then": brk, "else": None}
+            loop = {"k": "For", "ty": "()", "sp": out["sp"], "pat": ps[0]["pat"], "iter": out["args"][0], "adaptor": "find_map",
+                    "body": {"k": "Block", "ty": "()", "sp": out["sp"], "unsafe": False, "stmts": [{"k": "Expr", "e": setr}, {"k": "Expr", "e": iff}], "expr": None}}
+            return {"k": "Block", "ty": out.get("ty"), "sp": out["sp"], "unsafe": False, "adaptor": "find_map",
+                    "stmts": [{"k": "Let", "sp": out["sp"], "pat": {"k": "Bind", "ty": out.get("ty"), "name": "found", "id": rid, "mode": "BindingMode(No, Mut)", "sub": None}, "init": none, "else": None},
+                              {"k": "Expr", "e": loop}],
+                    "expr": rv}
     # (2c) `opt.is_some_and(|x| body)` is `match opt { Some(x) => body, None => false }`
     if k == "Call" and (out.get("fn") or "").endswith(("Option::<T>::is_some_and", "Option::<T>::is_none_or")) and len(out["args"]) == 2 and peel(out["args"][1]).get("k") == "Closure":
         clo = F.fns.get(peel(out["args"][1])["def"])
